@@ -53,6 +53,7 @@ type vEnv struct {
 	sameWrapper           bool
 	equalContent          bool // distinct wrapper objects with equal contents
 	prewire, prewired     bool
+	panicFaults           bool // injected faults panic instead of returning an error
 	wrappers              []*vWrap
 	earlyServed           []int
 	populatedBeforeChecks bool
@@ -85,6 +86,10 @@ func (e *vEnv) fault(kind, node int) bool {
 	if nd.Bool() {
 		e.faultsLeft--
 		e.faults = append(e.faults, vEvent{kind, node})
+		if e.panicFaults {
+			// the callback fails by panicking; the application recovers around its call into the container
+			panic("boom")
+		}
 		return true
 	}
 	return false
@@ -795,14 +800,26 @@ func (e *vEnv) lastAt(kind, node int) int {
 func VerifC04B() {
 	n := nd.Param("N", 2)
 	e := newMC(n, nd.Param("POINTS", 1), nd.Param("LAZY", 1) == 1, 2, nd.Param("FAULTS", 1))
-	err := e.f.Refresh()
+	if nd.Param("PANICS", 0) == 1 {
+		e.panicFaults = nd.Bool()
+	}
+	var err error
+	if nd.Catch(func() { err = e.f.Refresh() }) {
+		nd.Cover("a creation failed by panicking")
+		err = errBoom
+	}
 	if err != nil {
 		nd.Cover("start failed")
 	}
 	rounds := nd.Param("LOOKUPS", 2)
 	for k := 0; k < rounds; k++ {
 		i := nd.Choose(n)
-		c, lerr := e.f.GetComponentByName(e.nodes[i].name)
+		var c any
+		var lerr error
+		if nd.Catch(func() { c, lerr = e.f.GetComponentByName(e.nodes[i].name) }) {
+			nd.Cover("a creation failed by panicking")
+			continue
+		}
 		if lerr != nil {
 			nd.Cover("lookup after failure reports an error")
 			continue
